@@ -395,6 +395,8 @@ func visitInstr(fr *frame, instr ssa.Instruction) continuation {
 		case *value: // *array
 			a := (*x).(array)
 			fr.env[instr] = &a[fr.i.ex.indexIn(idx, len(a))]
+		case symStr:
+			panic(abortPath{why: "element address of a read-only symbolic byte string", kind: "unsupported"})
 		default:
 			panic(fmt.Sprintf("unexpected x type in IndexAddr: %T", x))
 		}
